@@ -134,28 +134,29 @@ Section StepFacts.
       apply pop_n_spec in Hp. destruct Hp as [Hl _].
       unfold mret, push in H; inv H; cbn [length]; repeat split; lia.
     - (* MkDict *)
-      assert (Hgen : forall k st lg acc,
-        (fix go (k : nat) (st : stack) (acc : list (bytes * value)) {struct k} : M (option Z * stack) :=
+      assert (Hgen : forall k st lg acc bad,
+        (fix go (k : nat) (st : stack) (acc : list (bytes * value)) (bad : bool) {struct k} : M (option Z * stack) :=
            match k with
-           | O => mret (None, push (VMap (fold_left (fun m kv => map_insert m (fst kv) (snd kv)) acc [])) st)
+           | O => if bad then mret (None, push (VErr EValue) st)
+                  else mret (None, push (VMap (fold_left (fun m kv => map_insert m (fst kv) (snd kv)) acc [])) st)
            | S k' =>
                mbind (pop_val rs E d st) (fun rk => let '(key, st1) := rk in
+               mbind (pop_val rs E d st1) (fun rv => let '(v, st2) := rv in
                match key with
-               | VString s => mbind (pop_val rs E d st1) (fun rv => let '(v, st2) := rv in go k' st2 ((s, v) :: acc))
-               | _ => mfail EValue
-               end)
-           end) k st acc lg = (ROk (j, st'), lg') ->
+               | VString s => go k' st2 ((s, v) :: acc) bad
+               | _ => go k' st2 acc true
+               end))
+           end) k st acc bad lg = (ROk (j, st'), lg') ->
         (2 * k <= length st)%nat /\ length st' = (length st - 2 * k + 1)%nat /\ j = None).
-      { induction k as [|k IH]; intros st0 lg0 acc0 H0.
-        - unfold mret, push in H0. inv H0. cbn. repeat split; lia.
+      { induction k as [|k IH]; intros st0 lg0 acc0 bad0 H0.
+        - destruct bad0; unfold mret, push in H0; inv H0; cbn; repeat split; lia.
         - unfold mbind in H0 at 1.
           destruct (pop_val rs E d st0 lg0) as [[[key s1]| | | |] l1] eqn:Hk; try discriminate.
           apply pop_val_spec in Hk. destruct Hk as [y ->].
-          destruct key; try discriminate H0.
           unfold mbind in H0 at 1.
           destruct (pop_val rs E d s1 l1) as [[[v s2]| | | |] l2] eqn:Hv; try discriminate.
           apply pop_val_spec in Hv. destruct Hv as [y2 ->].
-          apply IH in H0. destruct H0 as (A & B & C). cbn [length]. repeat split; try lia; assumption. }
+          destruct key; apply IH in H0; destruct H0 as (A & B & C); cbn [length]; repeat split; try lia; assumption. }
       apply Hgen in H. destruct H as (A & B & ->). repeat split; lia.
     - (* Access *)
       unfold mbind in H.
@@ -201,7 +202,7 @@ Section StepFacts.
           destruct (has_macro E s).
           { apply Hfin in H. destruct H as [-> Hs]. cbn. repeat split; lia. }
           destruct (env_type E s) as [[]|];
-            try (apply Hret in H; destruct H as [-> Hs]; cbn; repeat split; lia).
+            try (destruct (folding E); [discriminate H|]; apply Hret in H; destruct H as [-> Hs]; cbn; repeat split; lia).
           apply Hfin2 in H. destruct H as [-> Hs]. cbn. repeat split; lia.
         * (* type *)
           apply Hfin2 in H. destruct H as [-> Hs]. cbn. repeat split; lia.
